@@ -170,7 +170,7 @@ class StrayProfile:
         o.update({"min_svc": 1, "snap": True, "w_audit": 0, "prop": "C04", "p_wide": 0.04})
         if "faults" not in o:
             fk = [f for f in proto.FAULT_KINDS if f not in ("cfg_torn", "cfg_garbage", "cfg_missing", "cfg_eio", "cfg_burst",
-                                                             "cfg_same", "cfg_timeout", "extreme_ids") and rnd.random() < 0.5]
+                                                             "cfg_same", "cfg_timeout", "extreme_ids", "torn_next") and rnd.random() < 0.5]
             o["faults"] = fk + ["cli_reannounce_live", "cli_disconnect"]
         o.setdefault("p_wrap", float(os.environ.get("VERIF_PWRAP", "0.03")))
         o["steps"] = rnd.choice([20, 40, 80, 150, 300])
